@@ -79,9 +79,14 @@ Result == IF res = <<>> THEN <<EmptySeg>> ELSE res
 
 -----------------------------------------------------------------------------
 (* Property C13 as clauses over (input, observed result).                   *)
-(* Domain: ms >= 1, bs >= 1, unpaired positions score <= 0.                 *)
+(* Domain: ms >= 1, bs >= 0, unpaired positions score <= 0.                 *)
+(* "falls bs or more below its running maximum" is read with "falls" =      *)
+(* strictly lower (drop > 0): for bs >= 1 this is the literal clause, for   *)
+(* bs = 0 it is implied by the literal clause (which has no model there);   *)
+(* right-maximality and the converse are demanded for bs >= 1 only (a tie   *)
+(* with the maximum breaks a run when bs = 0).                              *)
 
-InDomain(in) == /\ in.ms >= 1 /\ in.bs >= 1 /\ Len(in.sc) = Len(in.kd)
+InDomain(in) == /\ in.ms >= 1 /\ in.bs >= 0 /\ Len(in.sc) = Len(in.kd)
                 /\ \A k \in 1..Len(in.sc) : in.kd[k] # "P" => in.sc[k] <= 0
 
 IsEmptyResult(obs) == Len(obs) = 1 /\ obs[1].idx = <<>>
@@ -89,7 +94,7 @@ IsEmptyResult(obs) == Len(obs) = 1 /\ obs[1].idx = <<>>
 \* no prefix of lo..h is non-positive or lies bs or more below the running maximum
 PrefixOK(pre, bs, lo, h) ==
     \A k \in lo..h : /\ Sum(pre, lo, k) > 0
-                     /\ \A g \in lo..k : Sum(pre, lo, g) - Sum(pre, lo, k) < bs
+                     /\ \A g \in lo..k : LET d == Sum(pre, lo, g) - Sum(pre, lo, k) IN d <= 0 \/ d < bs
 
 Qualifies(in, pre, lo, hi) ==
     /\ in.kd[lo] = "P" /\ in.sc[lo] > 0 /\ in.kd[hi] = "P" /\ in.sc[hi] > 0
@@ -110,16 +115,16 @@ SegClauses(in, pre, s) ==
         \cup (IF s.score = Sum(pre, lo, hi) THEN {} ELSE {"score_is_sum"})
         \cup (IF Sum(pre, lo, hi) >= in.ms THEN {} ELSE {"score_ge_minScore"})
         \cup (IF \A k \in lo..hi : Sum(pre, lo, k) > 0 THEN {} ELSE {"prefix_positive"})
-        \cup (IF \A k \in lo..hi : \A g \in lo..k : Sum(pre, lo, g) - Sum(pre, lo, k) < in.bs
+        \cup (IF \A k \in lo..hi : \A g \in lo..k : LET d == Sum(pre, lo, g) - Sum(pre, lo, k) IN d <= 0 \/ d < in.bs
               THEN {} ELSE {"prefix_drop_below_break"})
         \cup (IF \A h \in lo..(hi-1) : Sum(pre, lo, h) < Sum(pre, lo, hi) THEN {} ELSE {"ends_at_first_maximum"})
-        \cup (IF \A h2 \in (hi+1)..n :
+        \cup (IF in.bs = 0 \/ \A h2 \in (hi+1)..n :
                     Sum(pre, lo, h2) > Sum(pre, lo, hi)
                        => \E j \in (hi+1)..(h2-1) : ~PrefixOK(pre, in.bs, lo, j)
               THEN {} ELSE {"right_maximal"})
 
 \* the converse of the last sentence is demanded only where ms <= bs (DESIGN.md section 4, C13)
-ConverseApplies(in) == in.ms <= in.bs
+ConverseApplies(in) == in.ms <= in.bs /\ in.bs >= 1
 
 C13_Failed(in, obs) ==
     LET pre == Pre(in.sc)
